@@ -60,3 +60,29 @@ def _v7(repo, mod):
 def _v8(repo, mod):
     fn = repo.func(AG, "_select_minimal_assertions")
     return insert_before(mod, fn.body[-1], "_unused = universe")
+
+
+def _rm(repo):
+    return repo.func(AG, "AssertionGenerator.__remove_non_holding_assertions")
+
+
+@variant("C21", "erroring-assertions-kept-next-to-failed", AG, "C21.non-holding", "`elif` for the erroring assertions: kept when the statement also has a failed one")
+def _v20(repo, mod):
+    fn = _rm(repo)
+    ifs = [s for s in ast.walk(fn) if isinstance(s, ast.If) and ".error" in norm(s.test)]
+    from sa.selftest.harness import node_text
+    return replace_node(mod, ifs[0], "el" + node_text(mod, ifs[0]))
+
+
+@variant("C21", "removal-in-ascending-order", AG, "C21.non-holding", "positions removed front to back through a stale position map is fine, but removing by shifted index is not")
+def _v21(repo, mod):
+    fn = _rm(repo)
+    c = find_node(fn, lambda n: isinstance(n, ast.Call) and norm(n.func).endswith("assertions.remove"))
+    return replace_node(mod, c, "statement.assertions.pop(pos)").replace("sorted(to_delete, reverse=True)", "sorted(to_delete)")
+
+
+@variant("C21", "twin-removal-by-key-ascending", AG, None, "removing by key in ascending order stays silent")
+def _v22(repo, mod):
+    fn = _rm(repo)
+    lp = find_stmt(fn, lambda s: isinstance(s, ast.For) and "to_delete" in norm(s.iter))
+    return replace_node(mod, lp.iter, "sorted(to_delete)")
